@@ -11,12 +11,7 @@ pub open spec fn pack(f: int, o: int) -> int { f * 0x1_0000_0000 + o }
 impl RowAddress {
     pub closed spec fn addr(&self) -> int { self.0 as int }
 
-//@extract rust/lance-core/src/utils/address.rs :: impl RowAddress :: const FRAGMENT_SIZE
-//@end
-//@extract rust/lance-core/src/utils/address.rs :: impl RowAddress :: const TOMBSTONE_FRAG
-//@end
-//@extract rust/lance-core/src/utils/address.rs :: impl RowAddress :: const TOMBSTONE_ROW
-//@end
+//@implconsts rust/lance-core/src/utils/address.rs :: impl RowAddress
 
 //@extract rust/lance-core/src/utils/address.rs :: impl RowAddress :: fn new_from_u64
 //@ name RowAddress::new_from_u64
